@@ -245,7 +245,7 @@ def value_for(r, f, alpha):
     if py == 'decimal':
         scale = r.choice((0, 1, 2, 3))
         w = flen if ftype == 'FIXED' else 12
-        digs = max(1, min(w - (1 if scale else 0) - 1, 9))
+        digs = max(1, min(w - (1 if scale else 0) - 1, 9 if w < 30 else 37))
         return decimal.Decimal(r.randrange(10 ** digs)).scaleb(-scale)
     if proc == 'DE43':
         return rde43(r, cap)
